@@ -89,8 +89,16 @@ pub broadcast proof fn lemma_sem_number(v: F64, env: Env)
 pub broadcast proof fn lemma_sem_variable(name: String, env: Env)
     ensures #[trigger] sem(Exp::Variable(name), env) == Some(env[name@]),
 {}
+pub broadcast proof fn lemma_sem_binop(op: BinOp, a: Box<Exp>, b: Box<Exp>, env: Env)
+    ensures #[trigger] sem(Exp::BinOp(op, a, b), env) == (match (sem(*a, env), sem(*b, env)) { (Some(x), Some(y)) => sem_binop(op, x, y), _ => None::<real> }),
+{}
+pub broadcast proof fn lemma_sem_unop(op: UnOp, a: Box<Exp>, env: Env)
+    ensures #[trigger] sem(Exp::UnOp(op, a), env) == (match sem(*a, env) { Some(x) => (match op { UnOp::Neg => Some(-x), UnOp::Not => Some(b2r(!truthy(x))) }), None => None::<real> }),
+{}
 pub broadcast group semx { lemma_sem_number, lemma_sem_variable }
+pub broadcast group semx2 { lemma_sem_number, lemma_sem_variable, lemma_sem_binop, lemma_sem_unop }
 // all numeric literals of an expression are finite (the precondition under which C08's "finite coefficients" holds)
+#[verifier::opaque]
 pub open spec fn exp_fin(e: Exp) -> bool
     decreases e,
 {
@@ -102,3 +110,16 @@ pub open spec fn exp_fin(e: Exp) -> bool
         Exp::Xor(a, b) | Exp::Implies(a, b) | Exp::Iff(a, b) | Exp::BinOp(_, a, b) => exp_fin(*a) && exp_fin(*b),
     }
 }
+// one-level unfolding of the (opaque) finiteness predicate
+pub proof fn lemma_exp_fin(e: Exp)
+    ensures
+        e matches Exp::Number(v) ==> exp_fin(e) == (fv(v) is Fin),
+        e is Variable ==> exp_fin(e),
+        e matches Exp::Abs(i) ==> exp_fin(e) == exp_fin(*i),
+        e matches Exp::Not(i) ==> exp_fin(e) == exp_fin(*i),
+        e matches Exp::UnOp(_, i) ==> exp_fin(e) == exp_fin(*i),
+        e matches Exp::BinOp(_, a, b) ==> exp_fin(e) == (exp_fin(*a) && exp_fin(*b)),
+        e matches Exp::Xor(a, b) ==> exp_fin(e) == (exp_fin(*a) && exp_fin(*b)),
+        e matches Exp::Implies(a, b) ==> exp_fin(e) == (exp_fin(*a) && exp_fin(*b)),
+        e matches Exp::Iff(a, b) ==> exp_fin(e) == (exp_fin(*a) && exp_fin(*b)),
+{ reveal_with_fuel(exp_fin, 1); }
